@@ -334,6 +334,28 @@ fn seed_grid() -> Vec<(E, Vec<(String, V)>)> {
             }
         }
     }
+    // a map read with dot notation under a key spelled like a built-in function, macro or type:
+    // the entry wins over the method of that name, for a constant map (folded by the compiler)
+    // exactly as for a bound one or one built at run time (round 5, C09-m9)
+    for name in ["size", "min", "max", "round", "contains", "map", "filter", "all", "exists", "has", "reduce", "abs",
+                 "startsWith", "matches", "sort", "coalesce", "int", "string", "type", "dyn", "timestamp", "now", "a"] {
+        for v in [V::Int(10), V::s("s"), V::Bool(false), V::Null, V::List(vec![V::Int(1)])] {
+            let mut m = std::collections::BTreeMap::new();
+            m.insert(name.to_string(), v.clone());
+            m.insert("zz".to_string(), V::Int(1));
+            let bm = vec![("x".to_string(), V::Map(m))];
+            let fld = |r: E| E::Field(Box::new(r), name.to_string());
+            out.push((fld(x()), bm.clone()));
+            out.push((bin(Op::Eq, fld(x()), fld(x())), bm.clone()));
+            out.push((call("has", vec![fld(x())]), bm.clone()));
+            out.push((E::Index(Box::new(x()), Box::new(slit(name))), bm.clone()));
+            out.push((call("coalesce", vec![fld(x()), ilit(7)]), bm.clone()));
+            let bv = vec![("x".to_string(), v.clone())];
+            out.push((fld(E::Map(vec![(slit(name), x()), (slit("zz"), ilit(1))])), bv.clone()));
+            out.push((E::List(vec![fld(E::Map(vec![(slit("zz"), ilit(1)), (slit(name), x())]))]), bv.clone()));
+            out.push((call("has", vec![fld(E::Map(vec![(slit(name), x())]))]), bv.clone()));
+        }
+    }
     // variables that stay unbound in every form, next to a substitutable one
     for v in [V::Int(1), V::Bool(true), V::Bool(false), V::s("a")] {
         let b = vec![("x".to_string(), v)];
